@@ -962,6 +962,11 @@ impl Planner {
     fn check_zone_map_for_predicate(&self, predicate: &LogicalExpression) -> Option<bool> {
         use grafeo_core::graph::lpg::CompareOp;
 
+        #[cfg(grafeo_verif)]
+        if grafeo_common::verif::flag("planner.no_zone_map") {
+            return None;
+        }
+
         match predicate {
             LogicalExpression::Binary { left, op, right } => {
                 // Check for AND/OR first (compound conditions)
@@ -1055,6 +1060,10 @@ impl Planner {
         &self,
         filter: &FilterOp,
     ) -> Result<Option<(Box<dyn Operator>, Vec<String>)>> {
+        #[cfg(grafeo_verif)]
+        if grafeo_common::verif::flag("planner.no_index_path") {
+            return Ok(None);
+        }
         // Only optimize if input is a simple NodeScan (not nested)
         let (scan_variable, scan_label) = match filter.input.as_ref() {
             LogicalOperator::NodeScan(scan) if scan.input.is_none() => {
@@ -1186,6 +1195,10 @@ impl Planner {
         &self,
         filter: &FilterOp,
     ) -> Result<Option<(Box<dyn Operator>, Vec<String>)>> {
+        #[cfg(grafeo_verif)]
+        if grafeo_common::verif::flag("planner.no_range_path") {
+            return Ok(None);
+        }
         // Only optimize if input is a simple NodeScan (not nested)
         let (scan_variable, scan_label) = match filter.input.as_ref() {
             LogicalOperator::NodeScan(scan) if scan.input.is_none() => {
